@@ -162,7 +162,8 @@ class Workspace(AbstractContextManager):
 
     def _all_property_groups(self) -> list[PropertyGroup]:
         """Get all active PropertyGroup entities registered in the workspace."""
-        self.remove_none_referents(self._property_groups, "PropertyGroups")
+        # property groups are stored with their object, not in a container of the project
+        weakref_utils.remove_none_referents(self._property_groups)
         return [cast("PropertyGroup", v()) for v in self._property_groups.values()]
 
     def _all_objects(self) -> list[objects.ObjectBase]:
